@@ -6,6 +6,7 @@ from .gen_prog import ProgGen
 ID = "C10"
 LEAN_MODULE = "Tulisp.Props.C10"
 THEOREMS = []
+ENV = {"HARNESS_STACK_KIB": "8192"}      # the usual main-thread stack of an embedding process (long flat lists must not need more)
 PROFILES = ["dev", "release"]
 RULE = ("every built-in function, macro and special form of the registration table applied to every combination of "
         "argument kinds (nil, t, 0, 1, -1, i64 min/max, 0.0, -0.0, 1.5, inf, nan, \"\", \"a\", symbol, keyword, proper list, "
